@@ -75,6 +75,7 @@ def handleIO (line : String) : IO String := do
   | "jsfdef" :: rest => jsfdefLine (" ".intercalate rest)
   | "jsfront" :: rest => jsfrontLine (" ".intercalate rest)
   | "jsfdoc" :: rest => jsfdocLine (" ".intercalate rest)
+  | "srcpy" :: rest => srcpyLine (" ".intercalate rest)
   | "godefaults" :: rest => godefaultsLine (" ".intercalate rest)
   | "pydefaults" :: rest => pydefaultsLine (" ".intercalate rest)
   | "pyroundtrip" :: rest => pyroundtripLine (" ".intercalate rest)
